@@ -31,8 +31,18 @@ Push(S, mode, D, allow) ==
   /\ (mode # "git-push" => D = {}) /\ D \cap S = {} /\ \A b \in D : rr[b] # NoCommit
   /\ (mode = "git-push" => \A b \in S : br[b] # rr[b] /\ (rr[b] = NoCommit \/ rr[b] \in Anc(br[b], commits)))   \* fast-forward or new
   /\ (mode = "lfs-push-all" => S = {b \in Branches : br[b] # NoCommit})
-  /\ LET exclude == IF mode = "lfs-push-all" THEN {}
-                    ELSE {rt[b] : b \in Branches} \cup (IF mode = "git-push" THEN {rr[b] : b \in S} ELSE {})
+  /\ LET \* What the remote is taken to have already.  For git push the property speaks: whatever becomes
+         \* reachable on the remote must have its objects on the server, so only what the remote really
+         \* has may be left out - the cached remote-tracking refs whose branch still exists there
+         \* (lfs.calcSkippedRefs asks the remote for its branch names: a branch deleted there may have had
+         \* its objects collected) and the remote's own values of the pushed refs.  `git lfs push <remote>
+         \* <ref>` by its manual "filters out objects that are already referenced by the local clone of
+         \* the remote": every cached remote-tracking ref, stale or not; what only a stale one covers MAY be
+         \* uploaded all the same.
+         live    == {x \in Branches : rr[x] # NoCommit}
+         exLive  == {rt[b] : b \in live} \cup (IF mode = "git-push" THEN {rr[b] : b \in S} ELSE {})
+         exAll   == {rt[b] : b \in Branches} \cup (IF mode = "git-push" THEN {rr[b] : b \in S} ELSE {})
+         exclude == IF mode = "lfs-push-all" THEN {} ELSE IF mode = "git-push" THEN exLive ELSE exAll
          toScan  == ReachSet({br[b] : b \in S}, commits) \ ReachSet(exclude, commits)
          \* the scan lists pointer blobs the excluded side does not have: an object that a commit the remote
          \* already knows references as well is taken to be there already (it is, by RemoteComplete, unless an
@@ -40,8 +50,10 @@ Push(S, mode, D, allow) ==
          need    == PtrOids(toScan, commits) \ PtrOids(ReachSet(exclude, commits), commits)
          \* ... but how far back into the excluded history Git looks when it leaves out shared blobs is Git's
          \* business (only the boundary commits' own trees are certain): objects of the scanned commits that
-         \* also occur further back MAY be scanned, uploaded, or found missing
-         mayNeed == PtrOids(toScan, commits) \ need
+         \* also occur further back MAY be scanned, uploaded, or found missing; so may, for git lfs push,
+         \* what only a stale remote-tracking ref covers
+         widest  == IF mode = "lfs-push" THEN ReachSet({br[b] : b \in S}, commits) \ ReachSet(exLive, commits) ELSE toScan
+         mayNeed == PtrOids(widest, commits) \ need
          ambiguous == (mayNeed \ server) # {}
          have    == server \cup LocalValid
          missing == need \ have
@@ -58,6 +70,7 @@ Push(S, mode, D, allow) ==
              ELSE UNCHANGED <<rr, rt, everRemote>>
         /\ Log([a |-> "push", mode |-> mode, refs |-> S, deletes |-> D, allow |-> allow, lost |-> (IF verdict = "incomplete" THEN missing \ recov ELSE {}), verdict |-> verdict, need |-> need, mayNeed |-> mayNeed, missing |-> missing, ambiguous |-> ambiguous,
                 mayUpload |-> upl, serverBefore |-> server,
+                liveTracked |-> {b \in Branches : rt[b] # NoCommit /\ rr[b] # NoCommit}, staleTracked |-> {b \in Branches : rt[b] # NoCommit /\ rr[b] = NoCommit},
                 remoteNeeds |-> PtrOids(everRemote', commits) \ (Excused \cup (IF verdict = "incomplete" THEN missing \ recov ELSE {})),
                 rrAfter |-> rr'])
   /\ UNCHANGED <<commits, br, head>>
@@ -66,6 +79,7 @@ Next == \/ \E b \in Branches, p \in Paths, blob \in Blobs, g \in Ages : Commit(b
         \/ \E b, o \in Branches : Merge(b, o)
         \/ \E o \in Oids, h \in {"absent", "corrupt"} : DamageLocal(o, h)
         \/ \E b \in Branches : OtherPush(b)
+        \/ \E b \in Branches : OtherDelete(b)
         \/ \E S \in SUBSET Branches, m \in Modes, D \in SUBSET Branches, al \in BOOLEAN : Push(S, m, D, al)
 Spec == RepoInit /\ [][Next]_vars
 
